@@ -707,6 +707,159 @@ fn shape_ops() -> Vec<String> {
     out
 }
 
+
+/// strings put at EVERY string site in the quick tier too: one of every class the model tags
+/// (empty, blank, YAML-looking, multi-line, non-BMP, long) and a few more YAML look-alikes
+fn quick_special() -> Vec<String> {
+    let mut v: Vec<String> = ["", " ", "~", "null", "a\nb", "😀", " lead", "- a", "123", ": "].iter().map(|s| s.to_string()).collect();
+    v.push("x".repeat(300));
+    v
+}
+
+/// every optional field on its own: `null`, and (where the key may be left out) absent
+fn option_ops() -> Vec<String> {
+    let opt_keys = [
+        "certificate_path", "private_key_path", "discovery_server_url", "default_endpoint", "password_security_policy", "pass", "x509", "password",
+        "cert_path", "user_token_id",
+    ];
+    fn walk(v: &Value, path: &mut Vec<Value>, keys: &[&str], out: &mut Vec<Vec<Value>>) {
+        match v {
+            Value::Mapping(m) => {
+                for (k, x) in m {
+                    path.push(k.clone());
+                    if k.as_str().map(|k| keys.contains(&k)).unwrap_or(false) {
+                        out.push(path.clone());
+                    }
+                    walk(x, path, keys, out);
+                    path.pop();
+                }
+            }
+            Value::Sequence(a) => {
+                for (i, x) in a.iter().enumerate() {
+                    path.push(Value::Number((i as u64).into()));
+                    walk(x, path, keys, out);
+                    path.pop();
+                }
+            }
+            _ => {}
+        }
+    }
+    let mut out = vec![];
+    for (side, base) in [("server", base_server_doc()), ("client", base_client_doc())] {
+        let mut ps = vec![];
+        walk(&base, &mut vec![], &opt_keys, &mut ps);
+        // the client token's private_key_path goes with its cert_path
+        for p in ps {
+            let mut v = base.clone();
+            if let Some(x) = at_path(&mut v, &p) {
+                *x = Value::Null;
+            }
+            out.push(format!("cfg {} {}", side, tree_out(&doc_tree(&v))));
+            let mut v = base.clone();
+            let (last, parent) = p.split_last().unwrap();
+            if let Some(Value::Mapping(m)) = at_path(&mut v, parent) {
+                m.remove(last);
+                if last.as_str() == Some("cert_path") {
+                    m.remove(&s("private_key_path"));
+                    m.insert(s("password"), s(""));
+                }
+            }
+            out.push(format!("cfg {} {}", side, tree_out(&doc_tree(&v))));
+        }
+    }
+    out
+}
+
+/// documents of every kind, with the integer limits of every width and their neighbours
+fn kind_docs() -> Vec<T> {
+    let mut v = vec![leaf("n"), leaf("t"), leaf("f")];
+    for z in [
+        0i128, 1, -1, 255, 256, 65535, 65536, 4294967295, 4294967296, 2147483647, 2147483648, -2147483648, -2147483649, u64::MAX as i128,
+        i64::MIN as i128,
+    ] {
+        v.push(leaf(format!("i{}", z)));
+    }
+    for f in [1.5f64, 0.0, f64::NAN, f64::INFINITY, 3.0] {
+        v.push(leaf(format!("d{:016x}", f.to_bits())));
+    }
+    v.push(leaf(shex("")));
+    v.push(leaf(shex("x")));
+    v.push(T("a".into(), vec![]));
+    v.push(T("a".into(), vec![leaf(shex("b")), leaf(shex("a")), leaf(shex("b"))]));
+    v.push(T("a".into(), vec![leaf("i1")]));
+    v.push(T("o".into(), vec![]));
+    let dur = |secs: &str, nanos: &str| T("o".into(), vec![leaf(shex("secs")), leaf(secs), leaf(shex("nanos")), leaf(nanos)]);
+    v.push(dur("i1", "i0"));
+    v.push(dur("i1", "i999999999"));
+    v.push(dur("i1", "i2000000001"));
+    v.push(dur("i18446744073709551615", "i1000000000"));
+    v.push(dur("i18446744073709551615", "i999999999"));
+    v.push(dur("i1", "i4294967295"));
+    v.push(dur("i1", "i4294967296"));
+    v.push(dur("i0", "i1000000000"));
+    v.push(dur("i18446744073709551614", "i1999999999"));
+    v.push(dur("i-1", "i0"));
+    v.push(dur(&shex("1"), "i0"));
+    v.push(T("o".into(), vec![leaf(shex("secs")), leaf("i1")]));
+    v.push(T("o".into(), vec![leaf(shex("nanos")), leaf("i1")]));
+    v.push(T("o".into(), vec![leaf(shex("secs")), leaf("i1"), leaf(shex("nanos")), leaf("i1"), leaf(shex("x")), leaf("i1")]));
+    v
+}
+
+/// every node of the base documents (thorough) / one field of every type (quick) replaced by every `kind_docs` document
+fn kind_matrix_ops(all: bool) -> Vec<String> {
+    let quick_fields = [
+        "port", "security_level", "hello_timeout", "session_timeout", "max_array_length", "session_retry_limit", "min_sampling_interval",
+        "create_sample_keypair", "application_name", "certificate_path", "locale_ids", "preferred_locales", "user_token_ids", "user_tokens",
+        "endpoints", "ep1", "tokA", "session_retry_initial", "tcp_config", "limits", "decoding_options", "performance", "discovery_urls",
+    ];
+    let mut out = vec![];
+    for (side, base) in [("server", base_server_doc()), ("client", base_client_doc())] {
+        let t = doc_tree(&base);
+        let mut ps = vec![];
+        paths(&t, &mut vec![], &mut ps);
+        for p in ps {
+            if p.is_empty() {
+                continue;
+            }
+            // name of the key leading to this node
+            let mut key = String::new();
+            {
+                let mut x = &t;
+                for i in &p {
+                    if x.0 == "o" {
+                        key = sunhex(&x.1[*i - 1].0).unwrap_or_default();
+                    }
+                    x = &x.1[*i];
+                }
+            }
+            if !all && !quick_fields.contains(&key.as_str()) {
+                continue;
+            }
+            for d in kind_docs() {
+                let mut t2 = t.clone();
+                let nan = d.0 == format!("d{:016x}", f64::NAN.to_bits());
+                *at(&mut t2, &p) = d;
+                if nan {
+                    // NaN != NaN under the derived PartialEq: keep such a configuration invalid (never saved)
+                    if let Some(i) = t2.1.iter().position(|k| k.0 == shex("endpoints")) {
+                        t2.1[i + 1] = T("o".into(), vec![]);
+                    }
+                    if let Some(i) = t2.1.iter().position(|k| k.0 == shex("application_name")) {
+                        t2.1[i + 1] = leaf(shex(""));
+                    }
+                }
+                out.push(format!("cfg {} {}", side, tree_out(&t2)));
+            }
+        }
+        // the top level itself
+        for d in [leaf("n"), T("a".into(), vec![]), T("o".into(), vec![]), leaf(shex("x"))] {
+            out.push(format!("cfg {} {}", side, tree_out(&d)));
+        }
+    }
+    out
+}
+
 impl Prop for C41 {
     fn id(&self) -> &'static str {
         "C41"
@@ -717,10 +870,31 @@ impl Prop for C41 {
             out.push("reset".into());
             out.push(op);
         }
-        // thorough: EVERY string site x EVERY special string; quick: a random tenth of that block
-        let all = exhaustive_ops();
-        for op in all {
-            if tier == Tier::Thorough || rng.chance(1, 10) {
+        for op in option_ops() {
+            out.push("reset".into());
+            out.push(op);
+        }
+        for op in kind_matrix_ops(tier == Tier::Thorough) {
+            out.push("reset".into());
+            out.push(op);
+        }
+        // every string site x the quick specials (every tier); thorough: x EVERY special string; quick: plus a random
+        // twentieth of the rest
+        let quick: Vec<String> = quick_special();
+        for (side, base) in [("server", base_server_doc()), ("client", base_client_doc())] {
+            let mut ss = vec![];
+            sites(&base, &mut vec![], &mut ss);
+            for site in &ss {
+                for text in &quick {
+                    if let Some(v) = apply_site(&base, site, text) {
+                        out.push("reset".into());
+                        out.push(format!("cfg {} {}", side, tree_out(&doc_tree(&v))));
+                    }
+                }
+            }
+        }
+        for op in exhaustive_ops() {
+            if tier == Tier::Thorough || rng.chance(1, 20) {
                 out.push("reset".into());
                 out.push(op);
             }
